@@ -2,6 +2,7 @@ package props
 
 import (
 	"fmt"
+	"strings"
 	"testing"
 
 	"github.com/hashicorp/go-argmapper"
@@ -180,6 +181,17 @@ func genC03(g engine.G) *engine.Case {
 		b.AddInput(engine.Label{Name: p.Name, Type: p.Type, Sub: p.Sub})
 	}
 	b.Sc.JoinTyped = g.Pct(30)
+	if g.Pct(10) {
+		// a distractor whose subtype label is the upper-case twin of an exact
+		// input's: a different label, it must not take the exact one's place
+		for _, p := range b.Sc.Target.In {
+			if p.Sub != "" && strings.ToUpper(p.Sub) != p.Sub {
+				b.AddInput(engine.Label{Name: p.Name, Type: p.Type, Sub: strings.ToUpper(p.Sub)})
+				break
+			}
+		}
+		b.ShuffleInputs()
+	}
 	c := &engine.Case{Sc: b.Sc, Reps: 3}
 	if g.Pct(25) {
 		// run-once providers (no inputs) of a NAMED value of a parameter's
